@@ -243,3 +243,192 @@ def rule_stk1(ctx, rels):
     if sites == 0:
         r.ok("STK1", "modules", ",".join(rels), "",
              "no rank-dependent stacking call")
+
+
+# ---------------------------------------------------------------------------
+def rule_ord1(ctx, rels):
+    r = ctx.r
+    r.rule("ORD1", "reshape / ravel / flatten are never given order='A' or "
+                   "'K' (the index order then follows each array's own "
+                   "memory layout) nor 'F': the slots of an object (primary, "
+                   "auxiliary, dual data) are regrouped separately and must "
+                   "enumerate their units in the same, C, order")
+    n = 0
+    for rel in rels:
+        m = ctx.p.module_by_rel(rel)
+        for f in ctx.p.all_functions:
+            if f.module is not m:
+                continue
+            for c in ast.walk(f.node):
+                if not isinstance(c, ast.Call):
+                    continue
+                nm = dotted(c.func)
+                if not (nm.split(".")[-1] in ("reshape", "ravel", "flatten")):
+                    continue
+                o = next((k.value for k in c.keywords if k.arg == "order"),
+                         None)
+                if o is None:
+                    continue
+                if isinstance(o, ast.Constant) and o.value == "C":
+                    continue
+                n += 1
+                r.analysed(f)
+                r.violation(
+                    "ORD1", f"{f.fq}|{dotted(c)[:60]}", loc(f, c),
+                    dotted(c)[:140],
+                    f"order={dotted(o)}: the regrouping of this array "
+                    "follows its memory layout (or Fortran order) while the "
+                    "other slots of the same object -- built with np.stack, "
+                    "hence C-ordered -- are regrouped in C order: unit j of "
+                    "the result carries another unit's derived data",
+                    instance=f"{f.qualname}:order")
+    if n == 0:
+        r.ok("ORD1", "modules", ",".join(rels), "",
+             "no layout-dependent regrouping")
+
+
+def rule_mc1(ctx, rels):
+    r = ctx.r
+    r.rule("MC1", "a module-level memo never hands out the object it keeps, "
+                  "nor a shallow copy of it (copy.copy shares every "
+                  "attribute's dictionaries / arrays): a later in-place "
+                  "edit of one returned object would change the cached one "
+                  "and every other copy")
+    n = 0
+    for rel in rels:
+        m = ctx.p.module_by_rel(rel)
+        caches = set()
+        for st in m.tree.body:
+            if isinstance(st, ast.Assign) and len(st.targets) == 1 \
+                    and isinstance(st.targets[0], ast.Name) and (
+                        isinstance(st.value, (ast.Dict, ast.List))
+                        and not (st.value.keys if isinstance(
+                            st.value, ast.Dict) else st.value.elts)
+                        or isinstance(st.value, ast.Call)
+                        and dotted(st.value.func) in ("dict", "list",
+                                                      "OrderedDict")
+                        and not st.value.args):
+                caches.add(st.targets[0].id)
+        if not caches:
+            continue
+        for f in ctx.p.all_functions:
+            if f.module is not m:
+                continue
+            stores = {st.targets[0].value.id for st in ast.walk(f.node)
+                      if isinstance(st, ast.Assign)
+                      and isinstance(st.targets[0], ast.Subscript)
+                      and isinstance(st.targets[0].value, ast.Name)
+                      and st.targets[0].value.id in caches}
+            if not stores:
+                continue
+            defs = single_defs(f.node)
+            for ret in ast.walk(f.node):
+                if not (isinstance(ret, ast.Return)
+                        and ret.value is not None):
+                    continue
+                v = ret.value
+                if isinstance(v, ast.Name) and v.id in defs:
+                    v = defs[v.id]
+                core = v
+                shallow = False
+                if isinstance(v, ast.Call) and dotted(v.func) in (
+                        "copy.copy", "copy") and v.args:
+                    core, shallow = v.args[0], True
+                if isinstance(core, ast.Name) and core.id in defs:
+                    core = defs[core.id]
+                hit = isinstance(core, ast.Subscript) and isinstance(
+                    core.value, ast.Name) and core.value.id in stores
+                if not hit and isinstance(core, ast.Call) and dotted(
+                        core.func).endswith(".get") and dotted(
+                            core.func).split(".")[0] in stores:
+                    hit = True
+                if not hit:
+                    continue
+                n += 1
+                r.analysed(f)
+                r.violation(
+                    "MC1", f"{f.fq}|{norm_stmt(ret)[:60]}", loc(f, ret),
+                    norm_stmt(ret)[:140],
+                    ("a shallow copy of " if shallow else "")
+                    + f"the object kept in `{dotted(core)[:40]}` is "
+                    "returned: it shares its dictionaries with the cached "
+                    "object, so an in-place edit (add_edges, delete_vertex "
+                    "...) of one loaded automaton changes what every later "
+                    "load returns", instance=f"{f.qualname}:memo")
+    if n == 0:
+        r.ok("MC1", "modules", ",".join(rels), "",
+             "no module-level memo hands out shared objects")
+
+
+def rule_clo1(ctx, rels):
+    r = ctx.r
+    r.rule("CLO1", "a nested function never stores into a dict / list it "
+                   "captured from the enclosing call (kwargs[...] = v, "
+                   ".update, .setdefault, .append): the captured object "
+                   "outlives the call, so one invocation of the returned "
+                   "closure changes what the next one does")
+    n = 0
+    closures = 0
+    for rel in rels:
+        m = ctx.p.module_by_rel(rel)
+        for par in ctx.p.all_functions:
+            if par.module is not m:
+                continue
+            for fn in ast.walk(par.node):
+                if fn is par.node or not isinstance(fn, ast.FunctionDef):
+                    continue
+                # is the nested function returned by its parent (a closure)?
+                returned = any(isinstance(x, ast.Return) and isinstance(
+                    x.value, ast.Name) and x.value.id == fn.name
+                    for x in ast.walk(par.node))
+                if not returned:
+                    continue
+                closures += 1
+                r.analysed(par)
+                local = {a.arg for a in fn.args.args} | {
+                    t.id for st in ast.walk(fn)
+                    if isinstance(st, ast.Assign) for t in st.targets
+                    if isinstance(t, ast.Name)}
+                outer = set(par.params) | {
+                    t.id for st in ast.walk(par.node)
+                    if isinstance(st, ast.Assign) for t in st.targets
+                    if isinstance(t, ast.Name)}
+                if par.node.args.kwarg:
+                    outer.add(par.node.args.kwarg.arg)
+                if par.node.args.vararg:
+                    outer.add(par.node.args.vararg.arg)
+                bad = False
+                for st in ast.walk(fn):
+                    tgt = None
+                    if isinstance(st, (ast.Assign, ast.AugAssign)):
+                        for t in (st.targets if isinstance(st, ast.Assign)
+                                  else [st.target]):
+                            if isinstance(t, ast.Subscript) and isinstance(
+                                    t.value, ast.Name):
+                                tgt = t.value.id
+                    elif isinstance(st, ast.Expr) and isinstance(
+                            st.value, ast.Call) and isinstance(
+                                st.value.func, ast.Attribute) \
+                            and st.value.func.attr in (
+                                "update", "setdefault", "append", "extend",
+                                "pop", "clear", "insert") \
+                            and isinstance(st.value.func.value, ast.Name):
+                        tgt = st.value.func.value.id
+                    if tgt is None or tgt in local or tgt not in outer:
+                        continue
+                    n += 1
+                    bad = True
+                    r.violation(
+                        "CLO1", f"{par.fq}.{fn.name}|{norm_stmt(st)[:60]}",
+                        loc(par, st), norm_stmt(st)[:140],
+                        f"`{tgt}` belongs to the enclosing call of "
+                        f"{par.qualname} and is shared by every invocation "
+                        "of the returned function: a value stored by one "
+                        "call (a precomputed inverse) is silently reused by "
+                        "the next call that does not supply one",
+                        instance=f"{par.qualname}.{fn.name}:captured-store")
+                if not bad:
+                    r.ok("CLO1", f"{par.qualname}.{fn.name}", loc(par, fn),
+                         "", "closure does not store into captured state")
+    if closures == 0:
+        r.ok("CLO1", "modules", ",".join(rels), "", "no returned closure")
